@@ -408,6 +408,9 @@ def c03(out, tier, rng):
     ss += pool_sessions(rng, tier, k=2, parse_back="all", feedback=True)
     ss += mutate_sessions(rng, tier, n=15)
     ss += molfile_order_sessions(rng, tier, parse_back=True, n_quick=25)
+    ss += reader_fed_sessions(rng, tier, parse_back=True)
+    ss += parser_fed_sessions(rng, tier)
+    ss += moved_bond_sessions(rng, tier)
     count_sessions(out, ss, "c03")
     validate_sessions(out, ss, "C03:")
     out.extra["rule"] = RULE
@@ -538,6 +541,7 @@ def c05(out, tier, rng):
     pool = formula_stress(rng, tier) + drivers.special_molecules() + gen.multi_labelled(rng, 12 if tier == "quick" else 120)
     ss += [pipeline_session(name, g, rng, k=1, parse_back=True) for name, g in pool]
     ss += reader_fed_sessions(rng, tier)
+    ss += parser_fed_sessions(rng, tier)
     ss += mutate_sessions(rng, tier, n=12)          # the string must describe the molecule as it stands when the pipeline is called
     count_sessions(out, ss, "c05")
     validate_sessions(out, ss, "C05:", rl=0)
@@ -545,7 +549,77 @@ def c05(out, tier, rng):
     out.assumptions += ["the validator is spec/Grammar.tla + Tucan!LayoutClauses, written from tucan.ebnf; it shares no code with the library or ANTLR"]
 
 
-def reader_fed_sessions(rng, tier):
+def parser_fed_sessions(rng, tier):
+    """graphs as the PARSER produces them, also from strings it ought to reject (if it accepts one, what the pipeline then
+    emits is still judged): self-bonds on high indices, padded strings, large values"""
+    from tucan.io import graph_from_tucan
+    from tucan.canonicalization import canonicalize_molecule
+    from tucan.serialization import serialize_molecule
+    strings = ["C300/(1-2)(299-300)(300-300)", "C257/(257-257)", "C400/(399-399)", " C2/(1-2)", "C2/(1-2)\n", "C2//(1:mass=1000000)", "C2//(2:mass=12345678,rad=1000000)",
+               "H2//(1:mass=999999)(2:rad=100000)", "C2/(1-2)(1-2)(2-1)", "C3/(3-1)(2-1)//"[:-2], "H2O/(2-3)(1-3)/(2:rad=3)(1:mass=3)"]
+    ss = []
+    for i, s in enumerate(strings):
+        try:
+            g = graph_from_tucan(s)
+        except Exception:
+            continue
+        S = Session(f"pf-{i}", note=s[:100])
+        if "bad" in record.project(g):
+            try:
+                out = serialize_molecule(canonicalize_molecule(g))
+                if isinstance(out, str):
+                    S.ev.append({"op": "emitted", "s": out})
+            except Exception:
+                pass
+        else:
+            o = S.input(g)
+            c = S.canon(o)
+            if c:
+                t = S.ser(c)
+                if t:
+                    S.parse(t, of=c)
+        ss.append(S)
+    return ss
+
+
+def moved_bond_sessions(rng, tier, n=15):
+    """a canonical graph is edited in place so that its labels and its number of bonds stay what they were (one bond moved): the
+    pipeline must treat it as the molecule it now is"""
+    ss = []
+    for i in range(n if tier == "quick" else n * 8):
+        g = gen.random_molecule(rng, 7, density=0.4)
+        if g.number_of_edges() < 1 or g.number_of_nodes() < 3:
+            continue
+        S = Session(f"moved{i}")
+        o = S.input(g)
+        c = S.canon(o)
+        if not c:
+            continue
+        S.ser(c)
+        K = S.objs[c]
+        a, b = rng.choice(list(K.edges))
+        free = [(x, y) for x in K.nodes for y in K.nodes if x < y and not K.has_edge(x, y)]
+        if not free:
+            continue
+        x, y = rng.choice(free)
+        d = dict(K.edges[a, b])
+        K.remove_edge(a, b)
+        K.add_edge(x, y, **d)
+        S.ev.append({"op": "mutate", "obj": c, "g": record.project(K), "newcls": 950000 + c})
+        c2 = S.canon(c)
+        if c2:
+            t = S.ser(c2)
+            if t:
+                p = S.parse(t, of=c2)
+                if p:
+                    c3 = S.canon(p)
+                    if c3:
+                        S.ser(c3)
+        ss.append(S)
+    return ss
+
+
+def reader_fed_sessions(rng, tier, parse_back=False):
     """molecules as the readers produce them from spellings that stress defaults and case (explicit zeros, D/T with
     ISO entries, upper-case symbols that a tolerant reader might accept)"""
     from tucan.io import graph_from_molfile_text
@@ -573,7 +647,9 @@ def reader_fed_sessions(rng, tier):
         o = S.input(g)
         c = S.canon(o)
         if c:
-            S.ser(c)
+            t = S.ser(c)
+            if t is not None and parse_back:
+                S.parse(t, of=c)
         ss.append(S)
     return ss
 
@@ -587,6 +663,10 @@ def c12(out, tier, rng):
     ss += mutate_sessions(rng, tier, n=20)
     ss += history_sessions(rng, tier)
     ss += stale_code_sessions(rng, tier)
+    # design level: every call history (canonicalize / serialize / parse / relabel / edit in place, in any order) on small molecules
+    for start in ((1, 3) if tier == "quick" else (1, 2, 3, 4)):
+        out.design("MC_Calls", f"SPECIFICATION CSpec\nCONSTANTS RLimit = 99 BFLimit = 6 MaxLen = {5 if tier == 'quick' else 6} MaxObjs = {6 if tier == 'quick' else 7} Start = {start}\n"
+                   "INVARIANT HistoriesHold\nINVARIANT OneStringPerClass\nCHECK_DEADLOCK FALSE\n", expect_depth=5, label=f"MC_Calls Start={start}", timeout=7200)
     scr, r = drivers.script_sessions(rng, tier)          # call histories generated by TLC's simulator from spec/Calls.tla
     out.states += r.distinct; out.transitions += r.generated
     out.extra["tlc_generated_call_scripts"] = len(scr)
@@ -734,6 +814,16 @@ def c13(out, tier, rng):
     ss += automorphism_sessions(rng, tier)
     ss += stale_partition_sessions(rng, tier, n=15)
     ss += prepartitioned_sessions(rng, tier)
+    # centres with 256 arms each (neighbour counts beyond one byte), and graphs rebuilt from copied atom dictionaries
+    S = Session("arms256")
+    o = S.input(gen.arms_hubs(256))
+    S.canon(o, spy=False)
+    ss.append(S)
+    for i in range(10 if tier == "quick" else 80):
+        S = Session(f"fromdicts{i}")
+        o = S.input(from_dicts_variant(gen.random_molecule(rng, 6, pool="two", label_p=0.2), rng))
+        S.canon(o)
+        ss.append(S)
     count_sessions(out, ss, "c13")
     validate_sessions(out, ss, "C13:", rl=30 if tier == "quick" else 60)
     out.extra["rule"] = RULE + "; refinement mode additionally compares every intermediate partition with spec/Refine.tla up to RLimit atoms"
